@@ -165,7 +165,7 @@ def relational(sel: List[int]) -> bool:
 def CANDIDATES(func: str):
     import itertools
 
-    for sel in itertools.product(range(2), range(3), range(15), range(13), range(3), range(2)):
+    for sel in itertools.product(range(2), range(3), range(15), range(14), range(3), range(2)):
         if func == "sites":
             yield [list(sel[1:]) + [0] * 5]
         else:
